@@ -28,6 +28,8 @@ def field_name(draw, used: set) -> str:
             name = draw(st.sampled_from(WORDS)) + draw(st.sampled_from(ACRONYMS))
         elif kind == 3:
             name = "V" + str(draw(st.integers(0, 9))) + "And" + draw(st.sampled_from(WORDS))
+        elif kind == 4 and draw(st.integers(0, 2)) == 0:
+            name = draw(st.sampled_from(["N", "X", "Q", "K"]))  # single-letter names are well-formed too
         else:
             name = "".join(draw(st.lists(st.sampled_from(WORDS), min_size=1, max_size=3)))
         if name not in used and not name.endswith("Ms"):
